@@ -13,18 +13,19 @@
 // limitations under the License.
 
 // Package topics deals with MQTT topic names, topic filters and subscriptions.
-// - "Topic name" is a / separated string that could contain #, * and $
-// - / in topic name separates the string into "topic levels"
-// - # is a multi-level wildcard, and it must be the last character in the
-//   topic name. It represents the parent and all children levels.
-// - + is a single level wildwcard. It must be the only character in the
-//   topic level. It represents all names in the current level.
-// - $ is a special character that says the topic is a system level topic
+//   - "Topic name" is a / separated string that could contain #, * and $
+//   - / in topic name separates the string into "topic levels"
+//   - # is a multi-level wildcard, and it must be the last character in the
+//     topic name. It represents the parent and all children levels.
+//   - + is a single level wildwcard. It must be the only character in the
+//     topic level. It represents all names in the current level.
+//   - $ is a special character that says the topic is a system level topic
 package topics
 
 import (
 	"errors"
 	"fmt"
+	"sync"
 
 	"github.com/mdzio/go-mqtt/message"
 )
@@ -55,6 +56,10 @@ var (
 	ErrAuthProviderNotFound = errors.New("auth: Authentication provider not found")
 
 	providers = make(map[string]Provider)
+
+	// providersMu guards providers: clients register and unregister their own
+	// provider at run time (Client.Connect, client teardown).
+	providersMu sync.RWMutex
 )
 
 // Provider defines the interface for topic providers.
@@ -73,6 +78,9 @@ func Register(name string, provider Provider) {
 		panic("topics: Register provide is nil")
 	}
 
+	providersMu.Lock()
+	defer providersMu.Unlock()
+
 	if _, dup := providers[name]; dup {
 		panic("topics: Register called twice for provider " + name)
 	}
@@ -82,6 +90,9 @@ func Register(name string, provider Provider) {
 
 // Unregister unregisters a topics provider.
 func Unregister(name string) {
+	providersMu.Lock()
+	defer providersMu.Unlock()
+
 	delete(providers, name)
 }
 
@@ -92,7 +103,9 @@ type Manager struct {
 
 // NewManager creates a new manager with a specific provider.
 func NewManager(providerName string) (*Manager, error) {
+	providersMu.RLock()
 	p, ok := providers[providerName]
+	providersMu.RUnlock()
 	if !ok {
 		return nil, fmt.Errorf("session: unknown provider %q", providerName)
 	}
